@@ -25,6 +25,7 @@
 -/
 import PygProofs.Lemmas.TableAbsHeap
 import PygProofs.Lemmas.TableCall
+import PygProofs.Lemmas.TableMaskPlain
 
 namespace Pyg.Props.C01
 open Pyg Table Abs
@@ -1596,5 +1597,81 @@ example : tbl.getTuple ["b", "z"] = .error .key := by rfl
 example : abs (tbl.relabel ⟨Option.none, [("a", "k"), ("b", "k")]⟩) = ⟨["k"], [[.str "x"], [.str "y"], [.flt 10]]⟩ ∧
     (abs tbl).relabel (Relabel.key ⟨Option.none, [("a", "k"), ("b", "k")]⟩) =
       ⟨["k"], [[.str "x"], [.str "y"], [.flt 10]]⟩ := by decide
+
+
+/-! ### review round 2 (1): masks against a reading that does not share `zipper` with the code
+
+`Recs.getMask` is written with `zipper2` and so inherits the broadcasting of `_zip.py` from the code;
+`abs_getMask` therefore says nothing independent about it.  `Recs.getMaskPlain`
+(PygModel/TableSpecPlain.lean) is zip + filter, a single flag for all records, otherwise `ValueError`. -/
+
+/-- **`d[mask]` is the plain zip+filter of the records** (all columns kept, error cases included) for every
+table and every mask EXCEPT a table with exactly one record under a mask that is not a single flag.
+No rectangularity hypothesis is needed; a table without columns has no records and is covered.
+The side condition is exact (`mask_plain_exact`).  What it excludes:
+  * one record, mask of length k >= 2: the code repeats the record (`mask_one_row_repeats`), the plain
+    reading is a `ValueError`;
+  * one record, EMPTY mask: the model's `getMask` yields the columns without records, the plain reading a
+    `ValueError`.  This case is not reachable through the protocol: python cannot tell `d[[]]` from an empty
+    int list (line 385-386) and the driver sends it as `take []` (`abs_getTake`), never as `Op.mask _ _ []`. -/
+theorem abs_getMask_plain (t : Table) (m : List Bool) (h : (abs t).rows.length ≠ 1 ∨ m.length = 1) :
+    (t.getMask m).map abs = (abs t).getMaskPlain m := by
+  rw [abs_getMask, Recs.getMask_eq_plain _ _ h]
+
+/-- the same in terms of the common column length `n` of a rectangular table -/
+theorem abs_getMask_plain_rect (t : Table) (n : Nat) (hr : t.Rect n) (m : List Bool)
+    (h : t = [] ∨ n ≠ 1 ∨ m.length = 1) : (t.getMask m).map abs = (abs t).getMaskPlain m := by
+  apply abs_getMask_plain
+  rcases h with rfl | h | h
+  · exact Or.inl (by decide)
+  · by_cases hne : t = []
+    · subst hne; exact Or.inl (by decide)
+    · rw [abs_rows_length, nrows_of_rect hr hne]; exact Or.inl h
+  · exact Or.inr h
+
+/-- the side condition of `abs_getMask_plain` cannot be weakened: exactly one record and a mask that is not
+a single flag ALWAYS separate the model (success) from the plain reading (`ValueError`) -/
+theorem mask_plain_exact (t : Table) (m : List Bool) (hn : (abs t).rows.length = 1) (hk : m.length ≠ 1) :
+    (∃ t', t.getMask m = .ok t') ∧ (abs t).getMaskPlain m = .error .value := by
+  obtain ⟨⟨r', hr'⟩, h2⟩ := Recs.getMask_ne_plain (abs t) m hn hk
+  refine ⟨?_, h2⟩
+  have := abs_getMask (t := t) m
+  rw [hr'] at this
+  cases hg : t.getMask m with
+  | ok t' => exact ⟨t', rfl⟩
+  | error e => rw [hg] at this; cases this
+
+/-- **deviation from the plain list-of-records reading** (observed on the code, kept in the model):
+a table with exactly ONE row under a mask of k >= 2 flags is NOT a `ValueError` — which is what the plain
+reading `Recs.getMaskPlain` gives (second conjunct) — but that row repeated once per `True` flag, all
+columns kept (also when no flag is `True`: then no record).  `zipper(list(self), mask)` broadcasts the
+length-1 list of rows (`_zip.py:38-72`); real code: `dictable(a=[1],b=['q'])[[True,True,False,True]]` has
+3 rows. -/
+theorem mask_one_row_repeats (t : Table) (hr : t.Rect 1) (hne : t ≠ []) (m : List Bool) (hk : 2 ≤ m.length) :
+    (abs t).rows = [t.row 0] ∧
+    (t.getMask m).map abs = .ok ⟨t.cols, List.replicate (m.count true) (t.row 0)⟩ ∧
+    (abs t).getMaskPlain m = .error .value := by
+  have hrows : (abs t).rows = [t.row 0] := by
+    simp [abs, rows, nrows_of_rect hr hne, List.range_succ]
+  have habs : abs t = ⟨t.cols, [t.row 0]⟩ := by
+    cases h : abs t with
+    | mk c r => rw [h] at hrows; simp only at hrows; subst hrows; have := abs_cols t; rw [h] at this; simp at this; rw [this]
+  obtain ⟨h1, h2⟩ := Recs.getMask_one_record t.cols (t.row 0) m hk
+  refine ⟨hrows, ?_, ?_⟩
+  · rw [abs_getMask, habs, h1]
+  · rw [habs, h2]
+
+example : Table.Rect [("a", [.int 1]), ("b", [.str "q"])] 1 := by decide
+/-- `dictable(a=[1],b=['q'])[[True,True,False,True]]`: three copies of the row -/
+example : Table.getMask [("a", [.int 1]), ("b", [.str "q"])] [true, true, false, true] =
+    .ok [("a", [.int 1, .int 1, .int 1]), ("b", [.str "q", .str "q", .str "q"])] := by rfl
+example : Recs.getMaskPlain ⟨["a", "b"], [[.int 1, .str "q"]]⟩ [true, true, false, true] = .error .value := by rfl
+/-- the hypotheses of `abs_getMask_plain` on a 3-row table: a full mask, a single flag, a misfit -/
+example : (abs tbl).rows.length ≠ 1 ∨ [true, false, true].length = 1 := Or.inl (by decide)
+example : (abs tbl).getMaskPlain [true, false, true] = .ok ⟨["a", "b"], [[.int 1, .str "x"], [.int 3, .flt 10]]⟩ ∧
+    (abs tbl).getMaskPlain [true] = .ok (abs tbl) ∧ (abs tbl).getMaskPlain [false] = .ok ⟨["a", "b"], []⟩ ∧
+    (abs tbl).getMaskPlain [true, false] = .error .value := ⟨rfl, rfl, rfl, rfl⟩
+/-- a one-row table under a single flag is covered by `abs_getMask_plain` (second disjunct) -/
+example : (Table.getMask [("a", [.int 1])] [true]).map abs = Recs.getMaskPlain ⟨["a"], [[.int 1]]⟩ [true] := by rfl
 
 end Pyg.Props.C01
